@@ -111,6 +111,10 @@ func (bo *bufOnce) consumes(c ssa.CallInstruction) ssa.Value {
 		}
 		return nil
 	}
+	// any sync.Pool: what is Put must not be used any more
+	if ci, ok := c.(*ssa.Call); ok && isStdCall(ci, "sync", "Pool", "Put") && len(cc.Args) == 2 {
+		return bufRoot(cc.Args[1], 0)
+	}
 	if h.Blocks == nil || !strings.HasPrefix(funcPkgPath(h), modPath) {
 		return nil
 	}
@@ -127,6 +131,9 @@ func (bo *bufOnce) consumes(c ssa.CallInstruction) ssa.Value {
 }
 
 func carriesBuffer(t types.Type) bool {
+	if it, ok := t.Underlying().(*types.Interface); ok && it.NumMethods() == 0 {
+		return true // what a sync.Pool hands out
+	}
 	if typeIs(derefType(t), modPath+"/protocol", "Piece") || typeIs(t, modPath+"/protocol", "Message") {
 		return true
 	}
